@@ -6,23 +6,29 @@
 EXTENDS Integers, Sequences, FiniteSets, TLC, Json
 CONSTANTS NS, MaxLen, MaxSend
 VARIABLES sent, closedS, closedR, cancelled, len, op
+\* contexts: 0 = never ends, 1 = cancelled by a step, 2 = a deadline context that expires (DeadlineExceeded) by a step.
+\* noq = TRUE: the harness does not wait for quiescence after the step, so the next step races with it (TrySend only).
 vars == <<sent, closedS, closedR, cancelled, len, op>>
 S == 1..NS
 Total == LET RECURSIVE F(_) F(T) == IF T = {} THEN 0 ELSE LET x == CHOOSE x \in T : TRUE IN sent[x] + F(T \ {x}) IN F(S)
-R(a, s, v, c, e) == op' = [a |-> a, s |-> s, v |-> v, ctx |-> c, err |-> e] /\ len' = len + 1
-Init == sent = [s \in S |-> 0] /\ closedS = FALSE /\ closedR = FALSE /\ cancelled = FALSE /\ len = 0
-        /\ op = [a |-> "init", s |-> 0, v |-> 0, ctx |-> 0, err |-> 0]
+RQ(a, s, v, c, e, q) == op' = [a |-> a, s |-> s, v |-> v, ctx |-> c, err |-> e, noq |-> q] /\ len' = len + 1
+R(a, s, v, c, e) == RQ(a, s, v, c, e, FALSE)
+Init == sent = [s \in S |-> 0] /\ closedS = FALSE /\ closedR = FALSE /\ cancelled = {} /\ len = 0
+        /\ op = [a |-> "init", s |-> 0, v |-> 0, ctx |-> 0, err |-> 0, noq |-> FALSE]
 Send(s, a, c) == /\ Total < MaxSend /\ sent' = [sent EXCEPT ![s] = @ + 1] /\ UNCHANGED <<closedS, closedR, cancelled>>
                  /\ R(a, s, 10 * s + sent[s] + 1, c, 0)
 NextC(c) == ~closedR /\ UNCHANGED <<sent, closedS, closedR, cancelled>> /\ R("next", 0, 0, c, 0)
-Cancel == ~cancelled /\ cancelled' = TRUE /\ UNCHANGED <<sent, closedS, closedR>> /\ R("cancel", 0, 0, 1, 0)
+Cancel(c) == c \notin cancelled /\ cancelled' = cancelled \cup {c} /\ UNCHANGED <<sent, closedS, closedR>> /\ R("cancel", 0, 0, c, 0)
+TrySendRace(s) == /\ Total < MaxSend /\ sent' = [sent EXCEPT ![s] = @ + 1] /\ UNCHANGED <<closedS, closedR, cancelled>>
+                  /\ RQ("trysend", s, 10 * s + sent[s] + 1, 0, 0, TRUE)
 CloseS(e) == ~closedS /\ closedS' = TRUE /\ UNCHANGED <<sent, closedR, cancelled>> /\ R("closeS", 0, 0, 0, e)
 CloseR == ~closedR /\ closedR' = TRUE /\ UNCHANGED <<sent, closedS, cancelled>> /\ R("closeR", 0, 0, 0, 0)
 Next == /\ len < MaxLen
         /\ \/ \E s \in S, c \in {0, 1} : Send(s, "send", c)
            \/ \E s \in S : Send(s, "trysend", 0)
-           \/ \E c \in {0, 1} : NextC(c)
-           \/ Cancel \/ CloseR \/ \E e \in {0, 1} : CloseS(e)
+           \/ (NS > 1 /\ \E s \in S : TrySendRace(s))
+           \/ \E c \in {0, 1, 2} : NextC(c)
+           \/ (\E c \in {1, 2} : Cancel(c)) \/ CloseR \/ \E e \in {0, 1} : CloseS(e)
 Spec == Init /\ [][Next]_vars
 View == <<sent, closedS, closedR, cancelled, len>>
 LState == [s |-> [i \in S |-> sent[i]], cs |-> closedS, cr |-> closedR, c |-> cancelled, l |-> len]
